@@ -94,6 +94,7 @@ CaseOutcome prop_execute(const std::string & case_json) {
         }
     }
     oc.nontrivial = pending_at_sync;
+    if (!c.sch.pct.empty()) { oc.tags.push_back("pct_schedule"); if (oc.nontrivial) oc.tags.push_back("pct_schedule_nontrivial"); }
     oc.tags.push_back(strf("flush_ok:%d", flush_ok > 3 ? 3 : flush_ok));
     if (flush_timeout) oc.tags.push_back("flush_timed_out");
     if (r.stats.queue_full_seen) oc.tags.push_back("queue_full");
